@@ -85,7 +85,50 @@ func (k *keyStore) AuthRole(authid string) (string, error) {
 	if !ok {
 		return "", errors.New("no such user")
 	}
+	if u.NoRole {
+		return "", errors.New("no role on record")
+	}
 	return u.Role, nil
+}
+
+// cookieJar: which tracking cookie belongs to which authenticated user.
+type cookieJar struct {
+	mu sync.Mutex
+	m  map[string]string
+}
+
+// bypassKeyStore is a keyStore that also implements auth.BypassKeyStore the way
+// the nexus documentation describes it: a client presenting the tracking cookie
+// that was handed to an authenticated user is recognised as that user.
+type bypassKeyStore struct {
+	keyStore
+	jar *cookieJar
+}
+
+func transportAuth(details wamp.Dict, key string) string {
+	tr, _ := wamp.AsDict(details["transport"])
+	au, _ := wamp.AsDict(tr["auth"])
+	v, _ := wamp.AsString(au[key])
+	return v
+}
+
+func (b *bypassKeyStore) AlreadyAuth(authid string, details wamp.Dict) bool {
+	c := transportAuth(details, "cookie")
+	if c == "" {
+		return false
+	}
+	b.jar.mu.Lock()
+	defer b.jar.mu.Unlock()
+	return b.jar.m[c] == authid
+}
+
+func (b *bypassKeyStore) OnWelcome(authid string, welcome *wamp.Welcome, details wamp.Dict) error {
+	if n := transportAuth(details, "nextcookie"); n != "" {
+		b.jar.mu.Lock()
+		b.jar.m[n] = authid
+		b.jar.mu.Unlock()
+	}
+	return nil
 }
 
 func (k *keyStore) Provider() string { return "verif" }
@@ -103,16 +146,23 @@ func buildAuthenticators(cfg *RealmCfg) []auth.Authenticator {
 		users[u.AuthID] = u
 	}
 	var out []auth.Authenticator
+	jar := &cookieJar{m: map[string]string{}}
+	ks := func(salted bool) auth.KeyStore {
+		if cfg.CookieAuth {
+			return &bypassKeyStore{keyStore: keyStore{users: users, salted: salted}, jar: jar}
+		}
+		return &keyStore{users: users, salted: salted}
+	}
 	for _, a := range cfg.Auths {
 		switch a {
 		case "static":
 			out = append(out, &staticAuth{users: users})
 		case "ticket":
-			out = append(out, auth.NewTicketAuthenticator(&keyStore{users: users}, 0))
+			out = append(out, auth.NewTicketAuthenticator(ks(false), 0))
 		case "wampcra":
-			out = append(out, auth.NewCRAuthenticator(&keyStore{users: users}, 0))
+			out = append(out, auth.NewCRAuthenticator(ks(false), 0))
 		case "wampcra-salted":
-			out = append(out, auth.NewCRAuthenticator(&keyStore{users: users, salted: true}, 0))
+			out = append(out, auth.NewCRAuthenticator(ks(true), 0))
 		case "cryptosign":
 			out = append(out, auth.NewCryptoSignAuthenticator(&keyStore{users: users}, 0))
 		}
